@@ -231,8 +231,20 @@ pub mod proofs {
                 assert!(nb[i] == names[k][i], "name_bytes_exact");
                 i += 1;
             }
-            let expect_dir = types[k] == 4;
-            assert!((e.file_type() == FileType::Directory) == expect_dir, "type_exact");
+            // d_type -> FileType is the dirent(3) table: DT_FIFO 1, DT_CHR 2, DT_DIR 4, DT_BLK 6, DT_REG 8, DT_LNK 10, DT_SOCK 12
+            let want = match types[k] {
+                1 => FileType::Fifo,
+                2 => FileType::CharDevice,
+                4 => FileType::Directory,
+                6 => FileType::BlockDevice,
+                8 => FileType::RegularFile,
+                10 => FileType::Symlink,
+                12 => FileType::Socket,
+                _ => FileType::Unknown,
+            };
+            assert!(e.file_type() == want, "type_exact");
+            let is_dot = (lens[k] == 1 && names[k][0] == b'.') || (lens[k] == 2 && names[k][0] == b'.' && names[k][1] == b'.');
+            assert!(e.is_relative_reference() == is_dot, "relative_reference_iff_dot_or_dotdot");
             k += 1;
         }
         assert!(it.next().is_none(), "nothing_after_the_last_record");
